@@ -787,6 +787,8 @@ class Ctx:
         self.sqrt_order = []     # sqrt atoms with symbolic radicand, in creation order
         self.mono_vars = {}      # mono -> z3 const (linear abstraction)
         self.inputs = {}         # name -> aid
+        self.int_inputs = set()
+        self.has_ints = False
         self.pc = []             # exact z3 path condition
         self.pc_nl = False       # path condition has non-linear content
         self.lin = z3.SolverFor('QF_UFLRA')
@@ -811,6 +813,44 @@ class Ctx:
             if nn:
                 self._assert_z(z3.Real(name) >= 0, z3.Real(name) >= 0, False)
         return S({((aid, 1),): Fr(1)}, nn)
+
+    def ivar(self, name, lo=None):
+        """integer-valued solver variable (used as a real term: ToReal(Int))"""
+        if name in self.inputs:
+            aid = self.inputs[name]
+        else:
+            aid = len(self.atoms)
+            self.atoms.append(('ivar', name))
+            self.inputs[name] = aid
+            self.int_inputs.add(name)
+            if not self.has_ints:
+                self.has_ints = True
+                lin = z3.Solver()           # mixed integer/real linear arithmetic
+                lin.set('timeout', self.qtimeout)
+                for a in self.lin.assertions():
+                    lin.add(a)
+                self.lin = lin
+            if lo is not None:
+                e = z3.ToReal(z3.Int(name)) >= lo
+                self._assert_z(e, e, False)
+        return S({((aid, 1),): Fr(1)}, lo is not None and lo >= 0)
+
+    def integral(self, s):
+        """is the symbolic value an integer-valued term (integer combination of integer variables)?"""
+        p = s.p if isinstance(s, S) else s
+        for m, c in p.items():
+            if c.denominator != 1:
+                return False
+            for a, _ in m:
+                at = self.atoms[a]
+                if at[0] == 'ivar':
+                    continue
+                if at[0] in ('max', 'min') and self.integral(at[1]) and self.integral(at[2]):
+                    continue
+                if at[0] == 'abs' and self.integral(at[1]):
+                    continue
+                return False
+        return True
 
     def atom(self, key, build):
         aid = self.atom_ix.get(key)
@@ -883,7 +923,7 @@ class Ctx:
 
     def atom_name(self, aid):
         a = self.atoms[aid]
-        return a[1] if a[0] == 'var' else '%s!%d' % (a[0], aid)
+        return a[1] if a[0] in ('var', 'ivar') else '%s!%d' % (a[0], aid)
 
     def atom_z(self, aid, lin):
         r = self.atom_zc.get((aid, lin))
@@ -893,6 +933,8 @@ class Ctx:
         k = a[0]
         if k == 'var':
             r = z3.Real(a[1])
+        elif k == 'ivar':
+            r = z3.ToReal(z3.Int(a[1]))
         elif k == 'abs':
             e = self.poly_z(a[1], lin)
             r = z3.If(e >= 0, e, -e)
@@ -926,7 +968,7 @@ class Ctx:
     def atom_nl(self, aid):
         a = self.atoms[aid]
         k = a[0]
-        if k == 'var':
+        if k in ('var', 'ivar'):
             return False
         if k in ('sqrt', 'div'):
             return True
@@ -1190,7 +1232,7 @@ class Ctx:
     def witness(self, m):
         out = {}
         for name in self.inputs:
-            v = m.eval(z3.Real(name), model_completion=True)
+            v = m.eval(z3.Int(name) if name in self.int_inputs else z3.Real(name), model_completion=True)
             out[name] = _val_str(v)
         return out
 
@@ -1206,6 +1248,8 @@ class Ctx:
         if neg is not None:
             s.add(neg.z(False))
         for name in self.inputs:
+            if name in self.int_inputs:
+                continue
             k = z3.Int('k!' + name)
             s.add(z3.Real(name) * denom == z3.ToReal(k), k <= bound * denom, k >= -bound * denom)
         r = s.check()
@@ -1222,6 +1266,8 @@ class Ctx:
 
 def _val_str(v):
     """decimal/rational string of a z3 model value"""
+    if z3.is_int_value(v):
+        return '%d/1' % v.as_long()
     if z3.is_rational_value(v):
         return '%d/%d' % (v.numerator_as_long(), v.denominator_as_long())
     if z3.is_algebraic_value(v):
